@@ -484,7 +484,31 @@ def _flat(x, acc):
         acc.append(int(x))
 
 
+class _BigTimeout(BaseException):
+    pass
+
+
 def _big_job(job):
+    """_big_job_inner under an alarm: an execution that does not come back
+    within 60 s is the observation exc = 'HANG'."""
+    import signal
+
+    def alarm(*_):
+        raise _BigTimeout()
+    old = signal.signal(signal.SIGALRM, alarm)
+    signal.setitimer(signal.ITIMER_REAL, 60.0)
+    try:
+        return _big_job_inner(job)
+    except _BigTimeout:
+        form, n, b, seed = job
+        return {'form': form, 'n': n, 'b': b, 'size': n, 'drop': [], 'epochs': [], 'exc': 'HANG',
+                'seed': seed}
+    finally:
+        signal.setitimer(signal.ITIMER_REAL, 0)
+        signal.signal(signal.SIGALRM, old)
+
+
+def _big_job_inner(job):
     """One real execution at a large size, a real numpy generator, 2 epochs."""
     import warnings
     import numpy as np
@@ -520,6 +544,29 @@ def _big_job(job):
                 ds = src.random_choice(n // 2, replace=False, rng_state=rng)
             elif form == 'interleaved-prefetch':
                 pass
+            elif form == 'stop-then-epoch':
+                # an iteration through the prefetch thread that is stopped early
+                # (close / dropped / exception in the consumer), some other thread
+                # alive, then complete epochs over the same dataset object
+                import threading
+                import time
+                keyed = lazy_dataset.new({f'k{i:03d}': i for i in range(n)})
+                ds = keyed.shuffle(True, rng=rng).prefetch(1, 2)
+                view = ds.items() if b else ds
+                it = iter(view)
+                next(it)
+                if seed % 3 == 0:
+                    it.close()
+                elif seed % 3 == 1:
+                    del it
+                else:
+                    try:
+                        it.throw(KeyError('consumer failed'))
+                    except KeyError:
+                        pass
+                helper = threading.Thread(target=time.sleep, args=(3.0,), daemon=True)
+                helper.start()
+                ds = view.map(lambda kv: kv[1]) if b else view
             elif form in ('catch-reshuffle', 'prefetch-catch-reshuffle'):
                 # a failing map below catch(), a per-epoch reshuffle below that:
                 # every epoch drops exactly the failing examples, wherever they
@@ -572,6 +619,9 @@ def big_sizes(tier, res):
     for s_ in range(2 if tier == 'quick' else 8):
         for b in (0, 1):
             jobs.append(('interleaved-prefetch', 24, b, common.seed() + 7000 + s_))
+    for s_ in range(3 if tier == 'quick' else 12):
+        for b in (0, 1):
+            jobs.append(('stop-then-epoch', 7, b, common.seed() + 7100 + s_))
     for n in BIG[tier]:
         for form in ('reshuffle', 'batch-reshuffle', 'reshuffle-batch', 'batch-once', 'once',
                      'frozen', 'local', 'tile', 'choice'):
@@ -580,8 +630,24 @@ def big_sizes(tier, res):
     # (jobs that start process pools cannot run inside a daemonic pool worker)
     own = [j for j in jobs if j[0] == 'interleaved-prefetch' and j[2] == 1]
     jobs = [j for j in jobs if j not in own]
+    # one task per execution; an execution that hangs where not even the alarm
+    # gets through (inside a finalizer, exceptions are swallowed there) is found
+    # by lack of progress: 90 s without any task finishing
+    import time
     with mp.get_context('fork').Pool(min(common.NCPU, 8)) as pool:
-        recs = pool.map_async(_big_job, jobs, chunksize=1).get(1800)
+        pending = {i: pool.apply_async(_big_job, (j,)) for i, j in enumerate(jobs)}
+        done, last = {}, time.time()
+        while pending and time.time() - last < 90:
+            for i in [i for i, r in pending.items() if r.ready()]:
+                done[i] = pending.pop(i).get()
+                last = time.time()
+            time.sleep(0.2)
+        for i in pending:
+            form, n, b, seed = jobs[i]
+            done[i] = {'form': form, 'n': n, 'b': b, 'size': n, 'drop': [], 'epochs': [],
+                       'exc': 'HANG', 'seed': seed}
+        pool.terminate()
+    recs = [done[i] for i in range(len(jobs))]
     recs += [_big_job(j) for j in own]
     for i, r in enumerate(recs):
         r['id'] = i + 1
